@@ -21,7 +21,7 @@ from .. import tokenize as T
 PROP = "C20"
 BASE = 0x1000
 FID = {"f": 1, "g": 2, "h": 3, "k": 4, "add": 5}
-VARIANTS = ["plain", "sections", "local", "big", "badfile", "unaligned", "mnemonic", "absjal"]
+VARIANTS = ["plain", "sections", "local", "big", "badfile", "unaligned", "mnemonic", "absjal", "shadow_fwd", "shadow_bwd"]
 ABSJAL = 0x0c000100          # jal 0x400: a call to a fixed address, no relocation
 CPUS = ["mips", "ps2_ee", "pic32", "mips32"]
 
@@ -78,8 +78,15 @@ def build_files(sc, variant, d, cid):
 
 
 def render(sc, variant, cpu):
-    lines = [".%s" % cpu, ".big_endian" if variant == "big" else ".little_endian", ".org 0x%x" % BASE, "main:"]
+    lines = [".%s" % cpu, ".big_endian" if variant == "big" else ".little_endian", ".org 0x%x" % BASE]
     n = 0
+    own = []
+    if variant == "shadow_bwd" and sc["refs"]:
+        # the program has its own routine with the name of an imported function, defined before the call
+        own = [sc["refs"][0]]
+        lines += ["%s:" % own[0], "  jr $ra", "  nop"]
+        n += 8
+    lines.append("main:")
     if variant == "mnemonic":
         lines.append("  add $t0, $t1, $t2")
         n += 4
@@ -88,10 +95,14 @@ def render(sc, variant, cpu):
         n += 8
     lines += ["  jr $ra", "  nop"]
     n += 8
+    if variant == "shadow_fwd" and sc["refs"]:
+        own = [sc["refs"][0]]
+        lines += ["%s:" % own[0], "  jr $ra", "  nop"]
+        n += 8
     if variant == "unaligned":
         lines.append("  .db 1")
         n += 1
-    return "\n".join(lines) + "\n", BASE + n
+    return "\n".join(lines) + "\n", BASE + n, own
 
 
 def run_one(a):
@@ -152,9 +163,9 @@ def run(tier, seed):
                     for fn_ in m_:
                         fn_["tail"] = ABSJAL
         cid = "k%d" % i
-        src, end = render(sc, variant, cpu)
+        src, end, own = render(sc, variant, cpu)
         paths = build_files(sc, variant, wd, cid)
-        meta[cid] = (sc, variant, cpu, src, end, paths)
+        meta[cid] = (sc, variant, cpu, src, end, paths, own)
         jobs.append((os.path.join(vdir, "naken_asm"), wd, cid, src, paths))
     with ThreadPoolExecutor(C.NCPU) as ex:
         results = list(ex.map(run_one, jobs))
@@ -162,7 +173,7 @@ def run(tier, seed):
     events = []
     outs = {}
     for cid, rc, txt, hexb, lst_t in results:
-        sc, variant, cpu, src, end, paths = meta[cid]
+        sc, variant, cpu, src, end, paths, own = meta[cid]
         outs[cid] = txt
         if rc == -9 or rc < 0:
             chk.report("link:%s:died" % variant, "naken_asm died (%s) on\n%s" % (rc, src), dict(source=src, scenario=sc, rc=rc, out=txt))
@@ -171,12 +182,12 @@ def run(tier, seed):
         if lst_t is not None:
             syms = [dict(n=n, v=v) for n, v, s in lst.parse(lst_t)["syms"]]
         events.append(dict(id=cid, files=sc["files"], refs=sc["refs"], base=BASE, end=end, big=(variant == "big"),
-                           badfile=(variant == "badfile"), rc=rc, out=hexb is not None,
+                           badfile=(variant == "badfile"), own=own, rc=rc, out=hexb is not None,
                            file=T.LEXERS["hex"](hexb) if hexb is not None else [], syms=syms))
 
     # canaries
     canaries = {}
-    good = [e for e in events if e["rc"] == 0 and e["out"] and len(e["syms"]) >= 2 and not e["badfile"]]
+    good = [e for e in events if e["rc"] == 0 and e["out"] and len(e["syms"]) >= 2 and not e["badfile"] and not e["own"]]
     for i, e in enumerate(rnd.sample(good, min(12, len(good)))):
         c = json.loads(json.dumps(e))
         c["id"] = "canary." + e["id"]
@@ -206,7 +217,7 @@ def run(tier, seed):
     for eid, why in sorted(got.items()):
         if eid in canaries:
             continue
-        sc, variant, cpu, src, end, paths = meta[eid]
+        sc, variant, cpu, src, end, paths, own = meta[eid]
         for w in why:
             if w.startswith("skip:"):
                 nskip += 1
